@@ -641,10 +641,10 @@ def fam_method(rng, opts=None):
     return b.program()
 
 
-def _add_lmi(b, owner="pep"):
+def _add_lmi(b, owner="pep", force_kind=None, force_name=None):
     """An LMI that is feasible at the origin: PSD constant part, arbitrary off-diagonal expressions."""
     rng = b.rng
-    kind = b.pick(["sym2", "nonsym2", "sym3", "one", "schur"])
+    kind = force_kind or b.pick(["sym2", "nonsym2", "sym3", "one", "schur"])
     if not b.points:
         return None
     p, q = b.pick(b.points), b.pick(b.points)
@@ -684,6 +684,10 @@ def _add_lmi(b, owner="pep"):
         if rng.random() < 0.6:
             kw["clobber"] = True
         b.feat("lmi_from_numpy")
+    if rng.random() < 0.3:
+        kw["name"] = b.pick(["lmi", "lmi", "T"])       # labels: two LMIs may well carry the same one
+    if force_name:
+        kw["name"] = force_name
     return b.lmi(rows, owner=owner, **kw)
 
 
@@ -853,6 +857,22 @@ def fam_soup(rng, opts=None):
         b.emit({"op": "recons", "k": b.pick(b.conslist), "owner": "pep" if rng.random() < 0.5 else b.pick(b.funcs)[0]})
         b.feat("constraint_registered_twice")
     nl = b.pick([0, 0, 1, 1, 2])
+    if (opts or {}).get("same_name_lmis"):
+        # two (or three) different LMIs of one shape that carry the same label
+        active = rng.random() < 0.6
+        v0 = len(b.values)
+        for _ in range(b.pick([2, 2, 3])):
+            _add_lmi(b, owner="pep" if rng.random() < 0.6 else b.pick(b.funcs)[0],
+                     force_kind="schur" if active else b.pick(["sym2", "schur"]), force_name="lmi")
+        nl = 0
+        b.feat("same_name_lmis")
+        if active:
+            # every one of them is tight at the optimum: the metric pays for each epigraph variable t >= <p,q>^2
+            ts = b.values[v0:]
+            terms = [[-b.pick([1.0, 0.5, 2.0]), "e", t] for t in ts] + _rand_expr_terms(b, allow_const=False)
+            b.metric(b.expr(terms))
+            b.feat("lmis_active")
+            return b.program()
     for _ in range(nl):
         owner = "pep" if rng.random() < 0.6 else b.pick(b.funcs)[0]
         _add_lmi(b, owner=owner)
@@ -885,7 +905,7 @@ def fam_classcover(rng, opts=None):
         params = dict(PARAM_VARIANTS[cls][variant % 2])
     kw = {}
     if variant % 2 == 0:
-        kw["name"] = "fun"
+        kw["name"] = rng.choice(["fun", "f_{1}", "h_{0}", "f{2}"])       # names are free-form labels (LaTeX-like ones included)
     f = b.func(cls, params=params, **kw)
     pts = [b.init(name="x0"), b.init(name=None if variant % 2 else "x1")]
     pts.append(b.pcomb([[1, pts[0]], [-0.5, pts[1]]]))
